@@ -111,6 +111,36 @@ def obsScope (env : Env) (w : Wordnet) : Json :=
         ("ilis", jArr ((findIlis db none none w.lexids).map fun d =>
           jArr [jOpt d.id, jStr d.status, jOpt d.definition]))]
 
+/-- extra per-synset observations for relation / expansion properties -/
+def obsSynsetX (db : Db) (w : Wordnet) (s : SynsetData) : Json :=
+  let n := db.synsets.length + 2
+  let hyp : List String := ["hypernym", "instance_hypernym"]
+  jObj [("ref", jSynRef db s),
+        ("get_related", jArr ((synsetGetRelated db w s []).map (jSynRef db))),
+        ("hypernyms", jArr ((synsetGetRelated db w s hyp).map (jSynRef db))),
+        ("relations", jObj ((synsetRelationsMap db w s []).map fun p => (p.1, jArr (p.2.map (jSynRef db))))),
+        ("by_type", jObj ((synsetRelationsMap db w s []).map fun p =>
+          (p.1, jArr ((synsetGetRelated db w s [p.1]).map (jSynRef db))))),
+        ("translate", jObj (db.lexicons.map fun l =>
+          (l.id ++ ":" ++ l.version, match synsetTranslate db s (some (l.id ++ ":" ++ l.version)) none with
+            | some ts => jArr (ts.map (jSynRef db)) | none => jStr "error"))),
+        ("closure_hypernym", jArr ((synsetClosure db w s hyp n).map (jSynRef db))),
+        ("hypernym_paths", jArr ((synsetRelationPaths db w s hyp n).map fun p => jArr (p.map (jSynRef db))))]
+
+def obsSenseX (db : Db) (w : Wordnet) (s : SenseData) : Json :=
+  jObj [("ref", jSenseRef db s),
+        ("get_related", jArr ((senseGetRelated db w s []).map (jSenseRef db))),
+        ("get_related_synsets", jArr ((senseGetRelatedSynsets db w s []).map (jSynRef db))),
+        ("closure", jArr ((senseClosure db w s [] (db.senses.length + 2)).map (jSenseRef db)))]
+
+def obsScopeX (env : Env) (w : Wordnet) : Json :=
+  let db := env.db
+  match obsScope env w with
+  | .obj kvs =>
+    Json.obj ((kvs.insert "synsets_x" (jArr ((synsets db w env.norm none none none none).map (obsSynsetX db w)))).insert
+      "senses_x" (jArr ((senses db w env.norm none none none).map (obsSenseX db w))))
+  | j => j
+
 /-- observation of every installed lexicon: scope = the lexicon and its (transitive) bases,
 no expand lexicons -/
 def obsAll (env : Env) : Json :=
@@ -137,6 +167,12 @@ def stepStore (env : Env) (op : Json) (defaultRank : Nat) : Env × Json :=
        ({ env with db := db' }, jObj [("ok", jBool true)]))
   | "ili" => ({ env with db := addIli env.db (decIliRows op) }, jObj [("ok", jBool true)])
   | "obs" => (env, obsAll env)
+  | "battery" =>
+    (env, match mkWordnet env.db (optStr op "lexicon") (optStr op "lang") (optStr op "expand")
+            (getBool op "normalizer" true) (getBool op "all_forms" true) with
+      | some w => jObj [("S", jStrs (w.lexids.map (lexSpec env.db))), ("E", jStrs (w.expids.map (lexSpec env.db))),
+                        ("missing", jStrs w.missing), ("scope", obsScopeX env w)]
+      | none => jStr "error")
   | "lexicons" =>
     (env, match mkWordnet env.db (optStr op "lexicon") (optStr op "lang") none with
       | some w => jStrs (w.lexids.map (lexSpec env.db))
